@@ -1284,6 +1284,7 @@ int32 matrixRegisterSession(ssl_t *ssl)
  */
     g_sessionTable[i].cipher = NULL;
     g_sessionTable[i].clientAuthed = 0;
+    g_sessionTable[i].invalidated = 0;
     g_sessionTable[i].inUse += 1;
     ssl->sessCacheHeld = 1;
 /*
@@ -1366,6 +1367,7 @@ int32 matrixClearSession(ssl_t *ssl, int32 remove)
         g_sessionTable[i].extendedMasterSecret = 0;
         g_sessionTable[i].clientAuthed = 0;
         g_sessionTable[i].cipher = NULL;
+        g_sessionTable[i].invalidated = 1;
     }
     psUnlockMutex(&g_sessionTableLock);
     return PS_SUCCESS;
@@ -1520,14 +1522,18 @@ int32 matrixUpdateSession(ssl_t *ssl)
     {
         Memset(g_sessionTable[i].masterSecret, 0x0, SSL_HS_MASTER_SIZE);
         g_sessionTable[i].cipher = NULL;
+        g_sessionTable[i].invalidated = 1;
         psUnlockMutex(&g_sessionTableLock);
         return PS_FAILURE;
     }
-    if (ssl->flags & SSL_FLAGS_RESUMED)
+    if ((ssl->flags & SSL_FLAGS_RESUMED) || g_sessionTable[i].invalidated)
     {
         /* A session that resumed the entry has nothing to add to it; in
            particular an unfinished resumption attempt (anybody can present
-           a session id) must not make the entry unusable for its owner */
+           a session id) must not make the entry unusable for its owner.
+           And an entry that a failed connection has invalidated stays
+           invalid: its owner's later clean close must not write the secret
+           back */
         psUnlockMutex(&g_sessionTableLock);
         return PS_SUCCESS;
     }
